@@ -6,8 +6,10 @@
           subscribes and unsubscribes);
    violations st co r q   the rules of MQTT 5 (Validate/Spec.v) that q violates given the limits st
           announced in CONNACK, the CONNECT options co and the alias resolution r; conforms = none.
-   known_holes = [RSharedFilterMalformed; RTopicNul; RWillTopic; RSubscriptionIdNotAvailable]:
-          rules the code does not enforce (known findings D8, D23, D17, D4-dynamic), each with a witness. *)
+   known_holes = [RSharedFilterMalformed; RWillTopic; RSubscriptionIdNotAvailable]:
+          rules the code does not enforce (known findings D8, D17, D4-dynamic), each with a witness.
+          (RTopicNul left the list with the repair of D23, /repo a2fa1c5: U+0000 in a topic name / filter of
+          PUBLISH / SUBSCRIBE / UNSUBSCRIBE is rejected; in a will topic it counts as RWillTopic, D17.) *)
 From GM Require Import Base.Prelude Base.Outcome Codec.Packets Codec.Prim Codec.Settings.
 From GM Require Import Validate.Topic Validate.Rules Validate.Spec.
 From GM Require Import ValidateProofs.TopicP ValidateProofs.RulesP ValidateProofs.WitnessP.
@@ -34,8 +36,6 @@ Proof. exact sound_conforms. Qed.
 (* every hole is real: accepted by both validations, rule violated *)
 Theorem C16_sound_refuted_shared_filter_malformed : accepted_violating st_all w_share_malformed 1 RSharedFilterMalformed.
 Proof. exact refuted_shared_filter_malformed. Qed.
-Theorem C16_sound_refuted_topic_nul : accepted_violating st_all w_topic_nul 1 RTopicNul.
-Proof. exact refuted_topic_nul. Qed.
 Theorem C16_sound_refuted_will_topic : accepted_violating st_all w_will_topic 1 RWillTopic.
 Proof. exact refuted_will_topic. Qed.
 Theorem C16_sound_refuted_subscription_id_not_available :
@@ -59,11 +59,11 @@ Theorem C16_complete_refuted_unsubscribe :
 Proof. exact refuted_complete_unsubscribe. Qed.
 
 (* The grammar computed by compute_topic_filter_properties, for ALL byte strings: validity is the
-   4.7 filter grammar; for valid filters the shared flag is the 4.8.2 form and the wildcard flag is
+   4.7 filter grammar without null character ([MQTT-4.7.3-2]); for valid filters the shared flag is the 4.8.2 form and the wildcard flag is
    "contains + or #". *)
 Theorem C16_filter_grammar : forall f,
   let p := topic_filter_properties f in
-  tf_is_valid p = spec_plain_filter f /\
+  tf_is_valid p = spec_plain_filter f && no_nul f /\
   (tf_is_valid p = true ->
      tf_is_shared p = spec_shared_filter f /\ tf_has_wildcard p = filter_has_wildcard f).
 Proof. exact filter_grammar. Qed.
@@ -80,7 +80,7 @@ Theorem C16_filter_grammar_refuted_share :
   spec_filter (STR_SHARE ++ [47; 43; 47; 116]) = false.
 Proof. exact refuted_filter_grammar_share. Qed.
 
-Theorem C16_topic_grammar : forall t, is_valid_topic t = spec_topic t.
+Theorem C16_topic_grammar : forall t, is_valid_topic t = spec_topic t && no_nul t.
 Proof. exact topic_grammar. Qed.
 
 (* non-vacuity *)
